@@ -83,6 +83,17 @@ func scenC22(e *Env) func() {
 			p.Reqs = append([]c22Req{{ID: "f0", AE: "br", Size: 5000, Stream: true, Method: "GET"}, {ID: "f1", AE: "gzip", Size: 5000, Stream: true, Method: "GET"}, {ID: "f2", AE: "br", Size: 3000, Stream: true, Method: "GET"}}, p.Reqs...)
 		}
 	}
+	if p.Mode == "handler" && e.Chance(12) {
+		// flavour: many buffered bodies compressed at once with the same codec (each request's
+		// buffers are pooled objects that others may pick up while a compression is pending)
+		codec := Pick(e, "zstd", "zstd", "br", "gzip", "deflate")
+		p.Wrapper, p.Level, p.BrLevel, p.Concurrent = Pick(e, "default", "level"), Pick(e, -1, 1, 6), 4, true
+		p.Reqs = nil
+		for i, n := 0, e.Range(3, 7); i < n; i++ {
+			p.Reqs = append(p.Reqs, c22Req{ID: fmt.Sprint("g", i), AE: codec, Size: Pick(e, 300, 1000, 5000, 20000), Method: "GET", API: Pick(e, "set", "set", "raw", "append")})
+		}
+		e.Cfg.PoolAdversarial = true
+	}
 	e.Sample = p
 	if p.Mode == "handler" {
 		return func() { c22Handler(e, p) }
